@@ -215,9 +215,7 @@ def rebuilt(ctx, inv, td, f, key, where):
     writers = {b.fid for b, bn, sp, how in W if how.split(':')[0] in ('assign', 'opassign') and not b.test and not inv.is_ctor_like(b)}
     init_fid = '<%s as SerdeAPI>::init' % td.qual
     reach_init = inv.reachable([init_fid]) if init_fid in prog.by_id else set()
-    if writers & reach_init:
-        ctx.ok('C17-3.skip', key, 'rebuilt by init() (%s)' % sorted(writers & reach_init)[:2], where)
-        return
+    by_init = bool(writers & reach_init)
     # readers: functions with a place projection of this field used as an operand / borrowed
     readers = field_readers(prog, inv, td, f['name'])
     bad = []
@@ -238,8 +236,68 @@ def rebuilt(ctx, inv, td, f, key, where):
             ok = ok or (rb in wblocks and _write_first(inv, b, rb, td, f['name']))
             if not ok:
                 bad.append((b.fid, rb))
-    ctx.check(not bad, 'C17-3.skip', key, 'every read is preceded by an emptiness/None test with a rebuilding branch, or by a store (%d reader functions)' % nread,
-              'the field is excluded from serialisation but read without a rebuild guard in %s' % sorted(set(x[0] for x in bad))[:4], where)
+    if not bad:
+        ctx.ok('C17-3.skip', key, 'every read is preceded by an emptiness/None test with a rebuilding branch, or by a store (%d reader functions)%s' % (
+            nread, '; also rebuilt by init()' if by_init else ''), where)
+        return
+    if by_init:
+        # rebuilt only by init(): then init() of this type must be reached from the init() of EVERY serialisable type that can contain
+        # it — a container that keeps the default (empty) init() reloads the object with the field still empty
+        missing = _containers_without_cascade(ctx, td)
+        ctx.check(not missing, 'C17-3.skip', key, 'rebuilt by init(), which every containing serialisable type reaches on load',
+                  'rebuilt only by init() (read unguarded in %s), but these serialisable types contain a %s and do not run its init() when loaded: %s' % (
+                      sorted(set(x[0] for x in bad))[:3], td.name, missing[:6]), where)
+        return
+    ctx.check(False, 'C17-3.skip', key, '', 'the field is excluded from serialisation but read without a rebuild guard in %s' % sorted(set(x[0] for x in bad))[:4], where)
+
+
+def _containers_without_cascade(ctx, td):
+    """serialisable (SerdeAPI) struct types that contain `td` through their fields (Vec / Option / Box / enum payloads included)
+    and whose init() does not reach td's init()"""
+    prog = ctx.prog
+    inv = inventory(ctx)
+    target = '<%s as SerdeAPI>::init' % td.qual
+    serde_impl = set()
+    for imp in prog.impls:
+        if imp['trait'] and imp['trait'].replace(' ', '').split('<')[0].endswith('SerdeAPI'):
+            serde_impl.add(re.sub(r'<.*', '', imp['self_ty'].replace(' ', '')).split('::')[-1])
+    for name, tds in prog.types.items():
+        for t_ in tds:
+            if any(d['name'] == 'SerdeAPI' for d in t_.rec.get('derives', [])):
+                serde_impl.add(t_.name)
+    # containment closure
+    def field_types(t_):
+        out = set()
+        if t_.kind == 'struct':
+            for f in t_.fields:
+                out.add(base_type(f['ty'])[0])
+        else:
+            for v in getattr(t_, 'variants', []) or []:
+                for f in v.get('fields', []) or []:
+                    out.add(base_type(f['ty'])[0] if isinstance(f, dict) else base_type(str(f))[0])
+        return out
+    contains = {}
+    alltd = [t_ for tds in prog.types.values() for t_ in tds if not t_.test]
+    direct = {t_.name: field_types(t_) for t_ in alltd}
+    holders = {td.name}
+    changed = True
+    while changed:
+        changed = False
+        for nm, fts in direct.items():
+            if nm not in holders and fts & holders:
+                holders.add(nm); changed = True
+    missing = []
+    for nm in sorted(holders - {td.name}):
+        if nm not in serde_impl:
+            continue
+        fid = '<%s as SerdeAPI>::init' % nm
+        t2 = prog.typedef(nm)
+        fid = '<%s as SerdeAPI>::init' % (t2.qual if t2 is not None else nm)
+        if fid not in prog.by_id:
+            missing.append(nm + ' (default init)')
+        elif target not in inv.reachable([fid]):
+            missing.append(nm)
+    return missing
 
 
 def _write_first(inv, b, bn, td, fname):
